@@ -18,7 +18,7 @@ MANIFEST = dict(
          "timing tables. Tie: translator facts + trace validation on the FULL real stack (manager + locator + spa + facade + real simulator, virtual time) under seeded "
          "fault scripts (blackouts around each timeout, lossy and RF-error phases, selective loss, trigger phases, resets swept over the discovery / reconnect windows, "
          "a lost partial update under continuing traffic): the observed event stream is mapped to macro inputs, the model must reproduce the manager's record after "
-         "each, the recovery time must respect the bound, the facade must mirror the spa, every blackout that begins in CONNECTED must be reported in time. Session 4: the guard of the retry-exceeded branch is a generated fact (retryExceededNeedsSpa), abandoned_attempt_is_ignored is a theorem (the late failure report of a connection attempt abandoned by a reset cannot move a manager without a spa; genuine defect D8c, fix 4611c09), and the script reset-in-last-retry (resets during the last retry of a failing handshake request) is part of every run. Also: only_disconnect_closes_the_protocol over all 58 regenerated coroutine skeletons (reporting an error never silences the ping loop) and a script with an RF-error period long enough for one connection to count more than 50 reports. Also a network mode in which everything but pings gets RFERR (an error state reached without missing a ping) and every_answered_ping_is_announced over the ping loop skeleton.",
+         "each, the recovery time must respect the bound, the facade must mirror the spa, every blackout that begins in CONNECTED must be reported in time. Session 4: the guard of the retry-exceeded branch is a generated fact (retryExceededNeedsSpa), abandoned_attempt_is_ignored is a theorem (the late failure report of a connection attempt abandoned by a reset cannot move a manager without a spa; genuine defect D8c, fix 4611c09), and the script reset-in-last-retry (resets during the last retry of a failing handshake request) is part of every run. Also: only_disconnect_closes_the_protocol over all 58 regenerated coroutine skeletons (reporting an error never silences the ping loop) and a script with an RF-error period long enough for one connection to count more than 50 reports. Also a network mode in which everything but pings gets RFERR (an error state reached without missing a ping) and every_answered_ping_is_announced over the ping loop skeleton. Resets tied to the handshake traffic (1 ms / 30 ms after each request was transmitted).",
     note="partial: the timed model abstracts discovery / request / transfer phases to the bounds proved for them elsewhere, so a delay INSIDE a phase that those properties "
          "allow is seen only by the traces; real timer skew is outside.",
     technique="Lean 4 kernel evaluation over a finite macro-step machine built from source-extracted facts, lifted by induction; trace validation of the whole real stack",
@@ -78,7 +78,7 @@ def gen_script(rng):
     return kind, P, R
 
 
-def run_script(kind, phases, resets, bound_s, yielding=False, traffic=None):
+def run_script(kind, phases, resets, bound_s, yielding=False, traffic=None, verb_resets=None):
     """traffic = {"lost_at": t, "tick_every": dt}: at t the spa changes a value inside its log section and the partial update that
     reports it is LOST; every dt seconds the spa changes another value and that partial update is delivered"""
     from geckolib import GeckoAsyncSpaMan
@@ -103,6 +103,26 @@ def run_script(kind, phases, resets, bound_s, yielding=False, traffic=None):
             return {"st": str(m.spa_state).split(".")[-1], "descriptors": m._spa_descriptors is not None, "facade": m.facade is not None,
                     "spa": m._spa is not None, "pump": not pump.done()}
         net.state_fn = lambda: str(m.spa_state).split(".")[-1]
+        # resets tied to the TRAFFIC, not to the clock: "<delay> s after the client transmitted its n-th datagram with this verb" - they land
+        # while that request is in flight however fast or slow the handshake runs
+        vdone = []
+        vleft = [list(v) for v in (verb_resets or [])]
+
+        def on_client_datagram(data):
+            for v in vleft:
+                if v[0].encode() in data and v[2] > 0:
+                    v[2] -= 1
+                    if v[2] == 0:
+                        async def do_reset():
+                            sig = stack_sig(pump)
+                            in_connect = any(fn == "_connect" for fn, _ in sig)
+                            in_locate = any(fn in ("discover", "async_locate_spas") for fn, _ in sig)
+                            res["inputs"].append((round(loop.time(), 2), "reset!" if in_connect else ("resetL" if in_locate else "reset")))
+                            vdone.append(loop.time())
+                            await m.async_reset()
+                            res["samples"].append((round(loop.time(), 2), "after-reset", record()))
+                        loop.call_later(v[1], lambda: asyncio.ensure_future(do_reset()))
+        net.on_client_datagram = on_client_datagram
         tstate = {"lost": False, "next_tick": (traffic or {}).get("lost_at", 0) + 5}
         pending = sorted(resets)
         left_connected_at = None
@@ -114,7 +134,7 @@ def run_script(kind, phases, resets, bound_s, yielding=False, traffic=None):
             await asyncio.sleep(0.05)
             now = loop.time()
             hf = net.healthy_from()
-            if now > cap or (hf is not None and now >= max([hf] + [t for t, _ in resets]) + bound_s + 5):
+            if now > cap or (hf is not None and not any(v[2] > 0 for v in vleft) and now >= max([hf] + [t for t, _ in resets] + vdone) + bound_s + 5):
                 break
             if traffic is not None and m.facade is not None:
                 from geckolib.driver import GeckoPartialStatusBlockProtocolHandler as _PS
@@ -164,7 +184,7 @@ def run_script(kind, phases, resets, bound_s, yielding=False, traffic=None):
         res["mirror_ok"] = (m.facade is not None and m.facade.spa.struct.status_block == sim.structure.status_block)
         res["left_connected_at"] = left_connected_at
         # first CONNECTED after the last fault
-        last_fault = max([healthy_from] + [t for t, _ in resets])
+        last_fault = max([healthy_from] + [t for t, _ in resets] + vdone)
         rec = [t for (t, ev, st) in res["events"] if ev == "CLIENT_FACADE_IS_READY" and t >= last_fault]
         res["recovered_at"] = rec[0] if rec else (0.0 if (res["final"]["st"] == "CONNECTED" and not [e for e in res["events"] if e[0] >= last_fault and e[1] != "RUNNING_PING_RECEIVED" and not e[1].startswith("RUNNING_SPA_PACK")]) else None)
         res["last_fault"] = last_fault
@@ -252,18 +272,26 @@ def run(ctx):
         scripts.append(("reset-in-discovery", [], [(t, "discovery")]))
     for dt in (0.05, 0.1, 0.15, 0.25, 0.4, 0.6):
         scripts.append(("reset-twice", [], [(5.0, "steady"), (5.0 + dt, "again")]))
+    # resets that land while each handshake request is IN FLIGHT (tied to the traffic: 1 ms / 30 ms after the client transmitted it)
+    for verb in ("AVERS", "CURCH", "SFILE", "STATU"):
+        for dly in (0.001, 0.03):
+            scripts.append((f"reset-on-verb", [], [], [(verb, dly, 1)]))
     # a healthy network on which ONE partial update is lost while the spa keeps reporting other changes: only the periodic refresh
     # can repair the mirror, and it must (within a few refresh periods)
     scripts.append(("lost-update-under-traffic", [], []))
-    for n_s, (k, P, R) in enumerate(scripts):
+    for n_s, sc_ in enumerate(scripts):
+        k, P, R = sc_[:3]
+        VR = sc_[3] if len(sc_) > 3 else None
         yielding = n_s % 2 == 1
         traffic = {"lost_at": 30, "tick_every": 45} if k == "lost-update-under-traffic" else None
         inp = {"kind": k, "phases": P, "resets": R, "yielding": yielding}
+        if VR:
+            inp["verb_resets"] = VR
         if traffic:
             inp["traffic"] = traffic
         ctx.hist("client_handler", "yields" if yielding else "returns-at-once")
         try:
-            res = run_script(k, P, R, bound_idle, yielding, traffic)
+            res = run_script(k, P, R, bound_idle, yielding, traffic, VR)
         except Exception as e:  # noqa
             ctx.violation(f"script-raised:{k}", inp, "the stack runs", f"{type(e).__name__}: {e}")
             continue
@@ -337,6 +365,7 @@ def run(ctx):
 
 def replay(inp):
     from common import Ctx
-    res = run_script(inp["kind"], [tuple(p) for p in inp["phases"]], [tuple(r) for r in inp["resets"]], 369, inp.get("yielding", False), inp.get("traffic"))
+    res = run_script(inp["kind"], [tuple(p) for p in inp["phases"]], [tuple(r) for r in inp["resets"]], 369, inp.get("yielding", False), inp.get("traffic"),
+                     inp.get("verb_resets"))
     fin = res["final"]
     return (fin["st"] != "CONNECTED" or not fin["pump"] or not res.get("mirror_ok", True)), dict(fin, mirror_ok=res.get("mirror_ok"))
